@@ -23,6 +23,12 @@ def run(ctx: Context) -> None:
     from . import c05 as _c05
     from .common import share_obligations as _share
     _share(ctx, _c05, {'R05.2', 'R05.3'}, 'R20.6')
+    ctx.rule('R20.7', "a failing command always prints its message (also with --silent); the time variable whose units the commands rewrite is one the rewriting can read (facts shared with C17 R17.5)", floor=4)
+    from . import infra as _infra
+    _infra.silent_still_reports_errors(ctx, 'R20.7')
+    from . import c17 as _c17
+    from .common import share_obligations as _share17
+    _share17(ctx, _c17, {'R17.5'}, 'R20.7')
     ctx.assume("argparse calls the `type=` callable on the raw argument text and turns ArgumentTypeError into exit status 2")
     ctx.assume("NOT decided: equality of output file content with the library result (I/O at run time)")
 
